@@ -129,36 +129,52 @@ namespace nmtools::view
         // TODO: propagate error handling
         auto shape = unwrap(::nmtools::shape<true>(array));
         auto dim   = unwrap(::nmtools::dim<true>(array));
-        // TODO: error handling
-        auto m_axis  = [&](){
-            if constexpr (is_none_v<axis_t>) {
-                return axis;
+        // the computation proper, for an axis that is known to be valid (normalized) or None
+        auto mean_impl = [&](const auto& m_axis){
+            auto divisor = detail::mean_divisor(unwrap(shape),m_axis);
+            using divisor_t = decltype(divisor);
+            using element_t = meta::get_element_type_t<array_t>;
+            auto dtype_  = [&](){
+                if constexpr (is_none_v<dtype_t>) {
+                    // explicitly promote using mean promotion rule
+                    using dtype = meta::promote_types_t<meta::promote_mean,element_t,divisor_t>;
+                    return dtype{};
+                } else {
+                    return dtype;
+                }
+            }();
+            auto initial = None;
+            // TODO: proper type promotions
+            auto reduced = reduce_add(array,m_axis,dtype_,initial,keepdims);
+            return divide(reduced,divisor);
+        };
+        if constexpr (is_none_v<axis_t>) {
+            return mean_impl(axis);
+        } else {
+            auto m_axis = index::normalize_axis(axis,unwrap(dim));
+            using m_axis_t = decltype(m_axis);
+            using result_t = decltype(mean_impl(unwrap(m_axis)));
+            if constexpr (meta::is_maybe_v<m_axis_t> && meta::is_maybe_v<result_t>) {
+                // an axis outside [-dim,dim) has no result: report it instead of unwrapping an empty optional
+                return (has_value(m_axis)
+                    ? mean_impl(unwrap(m_axis))
+                    : result_t{meta::Nothing}
+                );
+            } else if constexpr (meta::is_maybe_v<m_axis_t> && meta::is_either_v<result_t>) {
+                // run-time keepdims: either<maybe<keepdims view>,maybe<view>>
+                using left_t = meta::get_either_left_t<result_t>;
+                if constexpr (meta::is_maybe_v<left_t>) {
+                    return (has_value(m_axis)
+                        ? mean_impl(unwrap(m_axis))
+                        : result_t{left_t{meta::Nothing}}
+                    );
+                } else {
+                    return mean_impl(unwrap(m_axis));
+                }
             } else {
-                return unwrap(index::normalize_axis(axis,unwrap(dim)));
+                return mean_impl(unwrap(m_axis));
             }
-        }();
-        auto divisor = detail::mean_divisor(unwrap(shape),m_axis);
-        using divisor_t = decltype(divisor);
-        using element_t = meta::get_element_type_t<array_t>;
-        auto dtype_  = [&](){
-            if constexpr (is_none_v<dtype_t>) {
-                // explicitly promote using mean promotion rule
-                using dtype = meta::promote_types_t<meta::promote_mean,element_t,divisor_t>;
-                return dtype{};
-            } else {
-                return dtype;
-            }
-        }();
-        auto initial = None;
-        // TODO: proper type promotions
-        auto reduced = reduce_add(array,m_axis,dtype_,initial,keepdims);
-        #if 0
-        // failed on clang with no-stl config, but okay on gcc with no-stl config 🤷
-        auto mean_   = divide(reduced,divisor);
-        return mean_;
-        #else
-        return divide(reduced,divisor);
-        #endif
+        }
     } // mean
 } // namespace nmtools::view
 
